@@ -91,6 +91,8 @@ Definition reimport_pred (v:variant) (fk:list (field * Z)) (fr:frame) (rf:rowfil
   match v with
   | V_fix => vcols (table_columns (csv_parse file))
   | V_orig =>
+    (* the unrepaired code removes a filter field from the columns by name (F-C18g) *)
+    let rf := match rf with RF_field _ n b => RF_field true n b | _ => rf end in
     if existsb (fun n => kind_of fk n =? 3) (spec_names fr rf cf) then VErr K_RAISE E_ValueError
     else if match spec_rows fr rf cf with [] => true | _ => false end
             && existsb (fun n => let k := kind_of fk n in (k =? 1) || (k =? 2)) (spec_names fr rf cf)
